@@ -14,7 +14,7 @@ from engines import hs_server, hs_client, tcp_stream, codec, pending, srvlife, m
 PROPS = {
     "C03": [(hs_server, ["C03_", "X_NoPanic"])],
     "C07": [(hs_server, ["C07_", "X_NoPanic"])],
-    "C09": [(hs_server, ["C09_"]), (hs_client, ["C09_"])],
+    "C09": [(hs_server, ["C09_"]), (hs_client, ["C09_"]), (transport.Attr, ["C09_Transport"])],
     "C10": [(hs_server, ["C10_"])],
     "C14": [(hs_server, ["C14_"]), (srvlife, ["C18_CallbacksExact"])],
     "C06": [(hs_server, ["C06_"]), (hs_client, ["C06_"]), (chan.C06, ["C06_"])],
